@@ -247,6 +247,7 @@ def run_ops(case, ctx, m, r, plan, real):
         # ---- expected effect
         target = None       # (chip, addr, bytes) that must be written
         expect_read = None  # (chip, addr, n)
+        compare_only = None  # leading bytes of the target that are judged
         if kind in ("write", "cwrite"):
             _, x, y, p, addr, data, win = op
             target = ((x, y), addr, data)
@@ -297,9 +298,22 @@ def run_ops(case, ctx, m, r, plan, real):
             ctx.hit("struct_field")
             if kind == "wvf":
                 if ch.endswith("s"):
-                    v = ["app%d", "caf\u00e9%d", "\u00b5app%d", "a\u4e2d%d"][
-                        seed % 4] % (seed % 1000)
+                    v = ["app%d", "caf\u00e9%d", "\u00b5app%d", "a\u4e2d%d",
+                         "sixteen-bytes%d", "a-long-application-name-%d",
+                         "\u00dcbungs-Netzwerk-%d",
+                         "d\u00e9tecteur-de-contours%d",
+                         "\u4e2d\u6587\u5e94\u7528\u7a0b\u5e8f%d"][
+                        (seed >> 3) % 9] % (seed % 1000)
                     packed = struct.pack(fmt, v.encode())
+                    if len(v.encode()) > n:
+                        # a name longer than the field: the field holds its
+                        # leading bytes (at least every whole character
+                        # that fits is judged) and nothing spills over
+                        ctx.hit("text_longer_than_field")
+                        whole = v
+                        while len(whole.encode()) > n:
+                            whole = whole[:-1]
+                        compare_only = len(whole.encode())
                 else:
                     v = seed & ((1 << (8 * n)) - 1)
                     packed = struct.pack(fmt, v)
@@ -394,6 +408,13 @@ def run_ops(case, ctx, m, r, plan, real):
         if target is not None:
             chip = m.chips[target[0]]
             have = chip.rd(target[1], len(target[2]))
+            if compare_only is not None:
+                have, target = have[:compare_only], (
+                    target[0], target[1], target[2][:compare_only]) + \
+                    tuple(target[3:])
+                inside_len = n
+            else:
+                inside_len = len(target[2])
             if have != target[2]:
                 i = next(i for i in range(len(have)) if have[i] != target[2][i])
                 check(False, "memory-differs-after-write",
@@ -406,7 +427,7 @@ def run_ops(case, ctx, m, r, plan, real):
                 for a, v in c.mem.items():
                     if old.get(a, 0) != v:
                         inside = (xy == target[0] and target[1] <= a <
-                                  target[1] + len(target[2]))
+                                  target[1] + inside_len)
                         check(inside, "foreign-byte-changed",
                               "chip %r address %#x changed" % (xy, a), **where)
         if expect_read is not None:
